@@ -6,7 +6,7 @@
 //     request must have been answered BADIP (raw frames: not at all);
 // (2) routing: a packet arriving on the server tun for address A shows up only in answers / raw frames sent to
 //     the live logged-in session that was assigned A;
-// (3) slots: a VACK never re-issues a slot that was active within 58 s, VFUL is only sent when no slot is free
+// (3) slots: a VACK never re-issues a slot that was active within the last 60 whole seconds, VFUL is only sent when no slot is free
 //     or expired (>= 62 s), and a session silent >= 62 s is refused.
 #include "adv_common.h"
 #include <set>
@@ -14,7 +14,7 @@
 using namespace hz;
 using namespace adv;
 
-enum AKind { A_PING, A_DATA, A_SPOOF, A_TUN, A_ADV, A_NEWV, A_OPT };
+enum AKind { A_PING, A_DATA, A_SPOOF, A_TUN, A_ADV, A_NEWV, A_OPT, A_NEWLOGIN };
 struct A4 {
 	int kind = A_ADV;
 	int who = 0;          // session index (honest acts), spoofer source index (spoof)
@@ -60,7 +60,7 @@ static Plan gen_plan(Tape &t)
 	int nact = t.range(8, 90);
 	for (int k = 0; k < nact && !t.exhausted(); k++) {
 		A4 a;
-		a.kind = (int)t.pick({6, 3, 7, 4, 3, 1, 1});
+		a.kind = (int)t.pick({6, 3, 7, 4, 3, 2, 1, 2});
 		a.who = (int)t.below((uint32_t)P.nsess);
 		a.salt = t.u32();
 		switch (a.kind) {
@@ -79,9 +79,9 @@ static Plan gen_plan(Tape &t)
 			a.msg.spoof = true;
 			break;
 		}
-		case A_TUN: a.sel = (int)t.pick({6, 2, 1, 1, 1, 1}); a.victim = (int)t.below((uint32_t)P.nsess); break;
+		case A_TUN: a.sel = (int)t.pick({6, 2, 1, 1, 1, 1, 2}); a.victim = (int)t.below((uint32_t)P.nsess); break;
 		case A_DATA: a.sel = t.chance(1, 3) ? 1 + (int)t.below((uint32_t)P.nsess) : 0; break;
-		case A_ADV: { static const uint64_t DT[] = {5000, 100000, 1000000, 10000000, 30000000, 58000000, 62000000, 70000000}; a.dt = DT[t.pick({3, 3, 3, 2, 2, 1, 2, 1})]; break; }
+		case A_ADV: { static const uint64_t DT[] = {5000, 100000, 1000000, 10000000, 30000000, 58000000, 62000000, 70000000, 59600000, 60000000, 60500000, 61000000}; a.dt = DT[t.pick({3, 3, 3, 2, 2, 1, 2, 1, 1, 2, 1, 1})]; break; }
 		case A_OPT: a.sel = (int)t.below(3); break;
 		default: break;
 		}
@@ -98,8 +98,13 @@ struct Exec {
 	Transcript T;
 	std::vector<std::pair<Bytes, int>> tunpk;     // (compressed packet offered on the server tun, owner session or -1 / -2 = must not be delivered)
 	std::vector<Bytes> tunraw;
+	bool got_traffic[16] = {false};                // downstream traffic was directed at the session (tun packet or packet from another session)
+	uint64_t maybe_active[32] = {0};               // latest moment a request naming the slot was not provably refused (upper bound of the last refresh)
+	std::vector<Bytes> third_ips;                  // tunnel addresses third parties obtained by logging in
+	struct Third { int src; Bytes ip; int user; uint64_t t_last; };
+	std::vector<Third> third;                      // third parties currently logged in (latest login per source)
 	std::map<size_t, size_t> maxf; std::map<size_t, std::set<char>> enc;
-	int n_spoof = 0, n_spoof_badip = 0, n_tun_live = 0, n_tun_dead = 0, n_expiry = 0, n_takeover_checks = 0, n_c2c = 0;
+	int n_spoof = 0, n_spoof_badip = 0, n_tun_live = 0, n_tun_dead = 0, n_expiry = 0, n_takeover_checks = 0, n_c2c = 0, n_newlogin = 0;
 	std::string sig, why;
 	void fail(const std::string &s, const std::string &w) { if (sig.empty()) { sig = s; why = w; } }
 };
@@ -184,12 +189,16 @@ static void execute(const Plan &P, bool with_spoofs, Exec &X, Tape &t)
 			if (!memcmp(a.payload.data(), "VACK", 4)) {
 				int u = a.payload[8];
 				X.n_takeover_checks++;
-				if (u < 32 && E.slot[u].have && sim::W.now - E.slot[u].t_active <= 58000000ull)
-					X.fail("C04:live-slot-reissued", fmt("VACK re-issued slot %d to %s although its session was active %.1f s ago", u, dg.dst.str().c_str(), (sim::W.now - E.slot[u].t_active) / 1e6));
+				// The server's clock counts whole seconds.  t_active is never later than the moment the server last refreshed the slot,
+				// so the age in whole seconds computed here is never smaller than the one the server sees: "active during the last 60
+				// seconds" is judged exactly at the boundary, without a margin.
+				uint64_t age_s = sim::W.now / 1000000 - E.slot[u].t_active / 1000000;
+				if (u < 32 && E.slot[u].have && age_s <= 60)
+					X.fail("C04:live-slot-reissued", fmt("VACK re-issued slot %d to %s although its session was active %.3f s ago (%llu s on the server's whole-second clock)", u, dg.dst.str().c_str(), (sim::W.now - E.slot[u].t_active) / 1e6, (unsigned long long)age_s));
 			}
 			if (!memcmp(a.payload.data(), "VFUL", 4)) {
 				for (int u = 0; u < E.nslots; u++)
-					if (!E.slot[u].have || sim::W.now - E.slot[u].t_active >= 62000000ull) { X.fail("C04:full-but-slot-free", fmt("VFUL sent to %s although slot %d is %s", dg.dst.str().c_str(), u, E.slot[u].have ? "silent for more than 62 s" : "unused")); break; }
+					if (!E.slot[u].have || sim::W.now - std::max(E.slot[u].t_active, X.maybe_active[u]) >= 62000000ull) { X.fail("C04:full-but-slot-free", fmt("VFUL sent to %s although slot %d is %s", dg.dst.str().c_str(), u, E.slot[u].have ? "silent for more than 62 s" : "unused")); break; }
 			}
 		}
 		// (2) routing of packets that arrived on the server tun
@@ -201,6 +210,7 @@ static void execute(const Plan &P, bool with_spoofs, Exec &X, Tape &t)
 				if (!contains(tp.first, frag)) continue;
 				int owner = tp.second;
 				if (owner < 0) X.fail("C04:routed-to-dead-or-unassigned", fmt("a packet that arrived on the server tun for an address without a live logged-in session was sent to %s (fragment of %zu bytes %s found in compressed packet #%zu of %zu bytes)", dg.dst.str().c_str(), frag.size(), hexs(frag, 24).c_str(), (size_t)(&tp - &X.tunpk[0]), tp.first.size()));
+				else if (owner >= 100) { if (!E.S(owner - 100).sc.addr.same_ip(dg.dst)) X.fail("C04:misrouted", fmt("a packet for the tunnel address of the logged-in third party src%d was sent to %s", owner - 100, dg.dst.str().c_str())); }
 				else if (!(E.S(X.ss[owner].src).sc.addr.same_ip(dg.dst))) X.fail("C04:misrouted", fmt("a packet for the tunnel address of session %d (user %d) was sent to %s", owner, X.ss[owner].user, dg.dst.str().c_str()));
 			}
 		}
@@ -227,10 +237,24 @@ static void execute(const Plan &P, bool with_spoofs, Exec &X, Tape &t)
 		const scn::Rx *r = sc.answer_for(id);
 		bool badip = r && r->ans.ok && r->ans.payload.size() == 5 && !memcmp(r->ans.payload.data(), "BADIP", 5);
 		if (silent >= 62000000ull + 3000 && s.state != 0) { X.n_expiry++; }
-		if (silent >= 62000000ull + 3000 && !badip && s.up)
+		bool still_mine = s.user >= 0 && s.user < 32 && E.slot[s.user].vack_to.same_ip(sc.addr);   // not re-issued to somebody else (who may be live; without source checking a request naming the slot then acts for the newcomer)
+		if (silent >= 62000000ull + 3000 && !badip && s.up && still_mine)
 			X.fail("C04:expired-session-accepted", fmt("session %d (user %d) was silent for %.1f s and its request was not refused", (int)(&s - &X.ss[0]), s.user, silent / 1e6));
+		if (!badip && s.user >= 0 && s.user < 32) X.maybe_active[s.user] = sim::W.now;   // not provably refused: the slot it names (possibly re-issued to somebody else by now) may have been refreshed
 		if (badip) s.state = 0;
 		else if (s.up && s.state != 0) { s.t_last = sim::W.now - 3000; if (s.user >= 0 && s.user < 32) E.slot[s.user].t_active = s.t_last; }
+	};
+	// pings of a logged-in third party: each refreshes its slot (upper bound always, lower bound when an answer other than BADIP was seen)
+	auto third_pings = [&](scn::ScriptClient &sc, int user, int n) {
+		for (int i = 0; i < n; i++) {
+			uint64_t t0 = sim::W.now;
+			uint16_t id = sc.send_ping(); sim::W.run_for(3000);
+			if (user < 0 || user >= 32) continue;
+			X.maybe_active[user] = sim::W.now;
+			const scn::Rx *r = sc.answer_for(id);
+			bool badip = r && r->ans.ok && r->ans.payload.size() == 5 && !memcmp(r->ans.payload.data(), "BADIP", 5);
+			if (r && r->ans.ok && !badip && r->ans.payload.size() >= 2) E.slot[user].t_active = std::max(E.slot[user].t_active, t0);
+		}
 	};
 	size_t tun_counter = 0;
 	for (const A4 &a : P.acts) {
@@ -241,7 +265,7 @@ static void execute(const Plan &P, bool with_spoofs, Exec &X, Tape &t)
 			Sess &s = X.ss[a.who]; if (!s.up) break;
 			scn::ScriptClient &sc = E.S(s.src).sc;
 			Bytes dst = E.s->server_tun_ip();
-			if (a.sel > 0 && X.ss[(a.sel - 1) % X.ss.size()].up && (a.sel - 1) % (int)X.ss.size() != a.who) { dst = X.ss[(a.sel - 1) % X.ss.size()].tun_ip; X.n_c2c++; }
+			if (a.sel > 0 && X.ss[(a.sel - 1) % X.ss.size()].up && (a.sel - 1) % (int)X.ss.size() != a.who) { dst = X.ss[(a.sel - 1) % X.ss.size()].tun_ip; X.n_c2c++; X.got_traffic[((a.sel - 1) % X.ss.size()) & 15] = true; }
 			Bytes body(12 + a.salt % 40); { uint32_t x = a.salt | 1; for (size_t i = 0; i < body.size(); i++) { x ^= x << 13; x ^= x >> 17; x ^= x << 5; body[i] = (uint8_t)(x >> 9); } }
 			Bytes pkt = scn::tun_packet(dst, s.tun_ip, body, (uint16_t)(a.salt >> 8));
 			Bytes z = refproto::zcompress(pkt);
@@ -257,7 +281,8 @@ static void execute(const Plan &P, bool with_spoofs, Exec &X, Tape &t)
 		case A_OPT: { Sess &s = X.ss[a.who]; if (!s.up) break; scn::ScriptClient &sc = E.S(s.src).sc; bool ok;
 			// a fragment size the session's record type can carry (a larger one cuts fragments off: the session's own misconfiguration)
 			int cap = (E.cfg.qtype == 6 || E.cfg.qtype == 7) ? 100 : ((E.cfg.qtype == 4 || E.cfg.qtype == 5) ? 900 : 1000);
-			int fsz = 20 + (int)(a.salt % (uint32_t)(cap - 19)); if (a.sel == 0) ok = sc.do_option('l'); else if (a.sel == 1) ok = sc.do_option('i'); else ok = sc.do_set_fragsize(fsz); E.note(fmt("session %d option request %s -> %s", a.who, a.sel == 0 ? "lazy" : (a.sel == 1 ? "immediate" : fmt("fragsize %d", fsz).c_str()), ok ? "ok" : "refused")); break; }
+			int fsz = 20 + (int)(a.salt % (uint32_t)(cap - 19)); int sel = a.sel; if (sel == 2 && X.got_traffic[a.who]) sel = (int)(a.salt & 1);   /* a fragment size is only requested before any downstream traffic: changing it in the middle of a transfer makes the server re-send the current fragment with another length, and whether the session already holds the old one is a matter of timing (a real client sets the size once, in the handshake) */
+			if (sel == 0) ok = sc.do_option('l'); else if (sel == 1) ok = sc.do_option('i'); else ok = sc.do_set_fragsize(fsz); E.note(fmt("session %d option request %s -> %s", a.who, sel == 0 ? "lazy" : (sel == 1 ? "immediate" : fmt("fragsize %d", fsz).c_str()), ok ? "ok" : "refused")); break; }
 		case A_SPOOF: {
 			if (!E.cfg.check_ip) break;            // without source checking a foreign request is allowed to act for the session
 			Sess &v = X.ss[a.victim]; if (!v.up) break;
@@ -298,10 +323,17 @@ static void execute(const Plan &P, bool with_spoofs, Exec &X, Tape &t)
 				owner = v.state == 0 ? -1 : (silent <= 58000000ull ? a.victim : (silent >= 62000000ull ? -1 : -3)); break; }
 			case 1: { // slot that got a VACK but never logged in / unassigned slot address
 				Bytes ip = E.s->client_tun_ip((int)(a.salt % 16)); bool owned = false; for (auto &s : X.ss) if (s.up && s.tun_ip == ip) owned = true;
+				for (auto &tip : X.third_ips) if (tip == ip) owned = true;   // a third party logged in there: no claim
 				if (!owned) { dst = ip; owner = -1; what = "an address no logged-in session holds"; } break; }
 			case 2: dst = sip; owner = -1; what = "the server itself"; break;
 			case 3: { uint32_t n = sh & mask; dst = Bytes{(uint8_t)(n >> 24), (uint8_t)(n >> 16), (uint8_t)(n >> 8), (uint8_t)n}; owner = -1; what = "the network address"; break; }
 			case 4: { uint32_t b = sh | ~mask; dst = Bytes{(uint8_t)(b >> 24), (uint8_t)(b >> 16), (uint8_t)(b >> 8), (uint8_t)b}; owner = -1; what = "the broadcast address"; break; }
+			case 6: {   // the address a logged-in third party holds (owner code 100 + source index)
+				if (X.third.empty()) break;
+				Exec::Third &th = X.third[a.salt % X.third.size()];
+				if (th.user < 0 || th.user >= 32 || !E.slot[th.user].vack_to.same_ip(E.S(th.src).sc.addr)) break;
+				uint64_t silent = sim::W.now - th.t_last;
+				dst = th.ip; what = "a logged-in third party"; owner = silent <= 58000000ull ? 100 + th.src : (silent >= 62000000ull ? -1 : -3); break; }
 			default: dst = Bytes{192, 168, (uint8_t)(a.salt >> 8), (uint8_t)a.salt}; owner = -1; what = "an address outside the tunnel network"; break;
 			}
 			if (dst.empty() || owner == -3) break;
@@ -310,12 +342,37 @@ static void execute(const Plan &P, bool with_spoofs, Exec &X, Tape &t)
 			X.tunpk.push_back(std::make_pair(refproto::zcompress(pkt), owner));
 			X.tunraw.push_back(pkt);
 			if (owner >= 0) X.n_tun_live++; else X.n_tun_dead++;
+			if (a.sel == 0) X.got_traffic[a.victim & 15] = true;
 			sim::W.offer_tun(E.s->srv, pkt);
 			sim::W.run_for(3000);
 			E.note(fmt("tun packet #%zu (%zu bytes, compressed %zu) for %s (%u.%u.%u.%u) expected %s", tun_counter - 1, pkt.size(), X.tunpk.back().first.size(), what, dst[0], dst[1], dst[2], dst[3], owner >= 0 ? "delivery to its owner only" : "no delivery"));
 			break;
 		}
 		case A_ADV: sim::W.run_for(a.dt); E.note(fmt("advance %.3f s", a.dt / 1e6)); break;
+		case A_NEWLOGIN: {
+			// a third party that knows the password logs in and polls: it gets a free or an expired slot (never a live one, see (3))
+			// and with it that slot's tunnel address; whatever arrived for the address before belongs to the earlier session and
+			// must not reach the newcomer (oracle (2): fragments of those packets are owned by the earlier session)
+			// only with source checking: without it any address may act for any slot, two scripted clients naming the same slot then
+			// interfere (one's pings are the other's duplicates) and the harness no longer knows which requests refreshed the slot
+			if (!E.cfg.check_ip) break;
+			int k = P.nsess + (int)(a.salt % P.nthird);
+			scn::ScriptClient &sc = E.S(k).sc;
+			Exec::Third *cur = nullptr; for (auto &th : X.third) if (th.src == k) cur = &th;
+			if (cur && sim::W.now - cur->t_last < 50000000ull && cur->user >= 0 && cur->user < 32 && E.slot[cur->user].vack_to.same_ip(sc.addr) && ((a.salt >> 9) & 3) != 0) {
+				// already logged in and live: it polls (fetches whatever the server holds for its address)
+				third_pings(sc, cur->user, 8);
+				cur->t_last = sim::W.now - 3000;
+				E.note(fmt("third party src%d (user %d) polls", k, cur->user));
+				break;
+			}
+			bool ok = sc.handshake((a.salt >> 8) & 1, 0, 0, 0);
+			E.note(fmt("third party src%d logs in: %s, user %d", k, ok ? "ok" : "refused", sc.userid));
+			if (ok) { X.n_newlogin++; unsigned a4 = 0, b4 = 0, c4 = 0, d4 = 0; sscanf(sc.tun_ip_text.c_str(), "%u.%u.%u.%u", &a4, &b4, &c4, &d4); Bytes tip{(uint8_t)a4, (uint8_t)b4, (uint8_t)c4, (uint8_t)d4}; X.third_ips.push_back(tip); third_pings(sc, sc.userid, 6);
+				for (size_t q = 0; q < X.third.size(); q++) if (X.third[q].src == k) { X.third.erase(X.third.begin() + q); break; }
+				X.third.push_back(Exec::Third{k, tip, sc.userid, sim::W.now - 3000}); }
+			break;
+		}
 		case A_NEWV: {
 			int k = P.nsess + (int)(a.salt % P.nthird);
 			Act m; m.kind = K_V; m.src = k; m.arg = 0;
@@ -403,6 +460,7 @@ static CaseResult run_case(Tape &t)
 	if (A.E.n_vful) r.cls("server-full");
 	if (A.n_tun_dead) r.cls("tun-packet-for-dead-address");
 	if (A.n_c2c) r.cls("client-to-client");
+	if (A.n_newlogin) r.cls("third-party-logged-in");
 	return r;
 }
 
